@@ -25,8 +25,16 @@ def normal_density(x, mu=2.5, sigma=1.0):
     return np.exp(-0.5 * ((x - mu) / sigma) ** 2) / np.sqrt(2.0 * np.pi * sigma ** 2)
 
 
-PARAMS = {"xy": ("a", "b"), "indexed": ("a", "b"), "hist": ("mu", "sigma"), "unbinned": ("mu", "sigma")}
-PVALS = {"xy": {"a": (1.0, 2.5), "b": (1.0, 0.4)}, "indexed": {"a": (1.0, 2.5), "b": (1.0, 0.4)},
+XQ = [0.0, 1.0, 2.0, 3.0, 4.0, 5.0, 6.0]
+YQ = [1.1, 1.7, 3.4, 6.2, 10.8, 16.1, 23.6]
+
+
+def quad_model(x, a=0.5, b=0.2, c=1.0):
+    return a * x ** 2 + b * x + c
+
+
+PARAMS = {"xyq": ("a", "b", "c"), "xy": ("a", "b"), "indexed": ("a", "b"), "hist": ("mu", "sigma"), "unbinned": ("mu", "sigma")}
+PVALS = {"xyq": {"a": (0.5, 0.7), "b": (0.2, -0.1), "c": (1.0, 1.5)}, "xy": {"a": (1.0, 2.5), "b": (1.0, 0.4)}, "indexed": {"a": (1.0, 2.5), "b": (1.0, 0.4)},
          "hist": {"mu": (2.5, 2.2), "sigma": (1.0, 1.3)}, "unbinned": {"mu": (2.5, 2.2), "sigma": (1.0, 1.3)}}
 
 # uncertainty-source catalogue:  name -> (axis, relative, reference, kind, size, correlation)
@@ -48,6 +56,8 @@ CONSTRAINTS = {
 
 def make_data(ftype, ds):
     from kafe2 import HistContainer, XYContainer, IndexedContainer
+    if ftype == "xyq":
+        return [XQ, YQ]
     if ftype == "xy":
         if ds == "d0":
             return [X0, Y0]
@@ -78,6 +88,8 @@ def make_fit(ftype, minimizer="iminuit", dea="nonlinear", cost=None, ds="d0"):
     from kafe2 import HistFit, IndexedFit, UnbinnedFit, XYFit
     warnings.simplefilter("ignore")
     kw = dict(minimizer=minimizer)
+    if ftype == "xyq":
+        return XYFit(make_data(ftype, ds), quad_model, cost_function=cost or "chi2", dynamic_error_algorithm=dea, **kw)
     if ftype == "xy":
         return XYFit(make_data(ftype, ds), cost_function=cost or "chi2", dynamic_error_algorithm=dea, **kw)
     if ftype == "indexed":
@@ -96,7 +108,7 @@ def _n(fit):
 def add_source(fit, ftype, name, spec=None):
     s = spec or SOURCES[name]
     n = _n(fit)
-    pre = (s["axis"],) if ftype == "xy" else ()
+    pre = (s["axis"],) if ftype in ("xy", "xyq") else ()
     if s["kind"] == "simple":
         return fit.add_error(*pre, err_val=s["size"], name=name, correlation=s["corr"], relative=s["rel"], reference=s["ref"])
     cor = np.full((n, n), s["corr"]) + np.eye(n) * (1.0 - s["corr"])
@@ -184,7 +196,7 @@ def apply_action(fit, ftype, a):
 # observables
 
 def _attr(ftype, xy, other):
-    return xy if ftype == "xy" else other
+    return xy if ftype in ("xy", "xyq") else other
 
 
 OBS = ("cost", "model", "data", "data_error", "data_cov", "model_error", "model_cov", "total_error", "total_cov", "total_inv",
@@ -195,7 +207,7 @@ def read_obs(fit, ftype, o):
     if o == "cost":
         return fit.cost_function_value
     if o == "model":
-        return fit.y_model if ftype == "xy" else fit.model
+        return fit.y_model if ftype in ("xy", "xyq") else fit.model
     if o == "data":
         return fit.data
     if o == "data_error":
@@ -213,7 +225,7 @@ def read_obs(fit, ftype, o):
     if o == "total_inv":
         return fit.total_cov_mat_inverse
     if o == "x_total_error":
-        return fit.x_total_error if ftype == "xy" else None
+        return fit.x_total_error if ftype in ("xy", "xyq") else None
     if o == "ndf":
         return fit.ndf
     if o == "gof":
